@@ -517,6 +517,36 @@ def stream_directed(ck):
                 a["ok"], reference, len(wrong), len(want), (", e.g. observed %r, intended %r" % (got[wrong[0]][0], want[wrong[0]][0])) if wrong else ""),
                 {"stream": "directed", "src": src, "sql": a["ok"], "reference": reference, "rows_wrong": len(wrong)}, lambda c, k=key: F[k])
     conn.close()
+    # /repo 222f71a: std.neg of Literal::Integer(i64::MIN) is left unevaluated (checked_neg).  No source text denotes
+    # that literal (the lexer reads 9223372036854775808 as a float), so the PL is presented as JSON (harness c02_plsql):
+    # model (static_eval_op + translate) vs implementation, byte for byte, around both ends of the i64 range.
+    MIN, MAX = -2 ** 63, 2 ** 63 - 1
+    base = harness("pl", [{"src": "from t | select {v0 = -101, v1 = -(-102), v2 = a + -103, v3 = -104 == 105, v4 = -(a + 106)}"}])[0]
+    if "ok" in base:
+        rl = lambda z: "(RLit (LInt (%d)))" % z
+        neg = lambda x: "(ROp n_neg [%s])" % x
+        for name, vals in (("min", [MIN] * 6), ("min+1", [MIN + 1] * 6), ("max", [MAX] * 6), ("mixed", [MIN, MAX, MIN, MIN + 1, MAX, MIN])):
+            txt = json.dumps(base["ok"])
+            for ph, z in zip((101, 102, 103, 104, 105, 106), vals):
+                txt = txt.replace('{"Integer": %d}' % ph, '{"Integer": %d}' % z)
+            v = vals
+            rq = [neg(rl(v[0])), neg(neg(rl(v[1]))), "(ROp (expand_binop B_Add) [RCol 0; %s])" % neg(rl(v[2])),
+                  "(ROp n_eq [%s; %s])" % (neg(rl(v[3])), rl(v[4])), neg("(ROp (expand_binop B_Add) [RCol 0; %s])" % rl(v[5]))]
+            try:
+                hdr = M.HEADER.replace("Model.EvalDoc", "Model.EvalDoc Model.SqlSem Model.SqlCompat Model.C02Probe Gen.GenExpand")
+                mod = coq_eval_retry(ck, hdr, ["probe_rq %s" % r for r in rq])
+            except (RuntimeError, ValueError, TypeError) as ex:
+                ck.violation("the model could not be evaluated on the i64 boundary literals", {"kind": "model-evaluation-failed", "error": str(ex)[-400:]}, no_input=True)
+                break
+            for di, dialect in enumerate(M.DIALECTS):
+                a = harness("c02_plsql", [{"pl": json.loads(txt), "target": "sql." + dialect}])[0]
+                ck.count("directed", "i64:%s:%s" % (name, dialect), nontrivial=True)
+                want = [M.codes_text(m[di]) for m in mod]
+                got = M.split_select(a["ok"], 5) if "ok" in a else None
+                if got != want:
+                    ck.disagreement("constant folding / emission at the i64 boundary (%s, %s): model %r, implementation %r" % (name, dialect, want, got if got is not None else a),
+                                    {"stream": "sqltext", "dialect": dialect, "pl_literals": [str(z) for z in vals], "model": want, "impl": got, "answer": a if got is None else None},
+                                    classify_text)
     # findings that live in tables / non-executable dialects: confirm the recorded emission
     for key, target, want in (("N3", "sql.sqlite", "a REGEXP b < c"), ("N4", "sql.bigquery", "(a + b * 180 / PI())")):
         f = [x for x in ck.findings if x["id"] == F[key]]
